@@ -86,7 +86,6 @@ Proof.
   - vm_compute. intros n H. tauto.
 Qed.
 
-Definition roundtrip_hyps_satisfiable_stmt : Prop := exists l ag, wf_agram ag /\ wf_layout l ag.
 Lemma roundtrip_hyps_satisfiable : roundtrip_hyps_satisfiable_stmt.
 Proof. exists ex_lay, ex_ag. split; [exact ex_wf_agram | exact ex_wf_layout]. Qed.
 
